@@ -67,6 +67,8 @@ TABLE = [
     # ---- start-up with local configuration ------------------------------------------------------------------
     (r"(DatabaseReader::start|discret::.*new::\{closure#0\}|security::generate_x509_certificate|security::derive_pass_phrase|multicast::new_(listener|sender|socket)|endpoint::build_endpoint|Beacon::enpoint|PeerManager::multicast_announce::\{closure#0\}|BlockingRuntime::rt|DiscretBlocking::subscribe_for_events)$",
      r"^(unwrap|expect|assert!)$", r".*", "T", "start-up / local configuration (key derivation, sockets, certificates, runtime): not driven by peer or API request input"),
+    (r"DiscretEndpoint::(initiate_connection|initiate_beacon_connection::\{closure#0\})$", r"^unwrap$", r"Endpoint::local_addr", "T",
+     "only compiled with the `log` feature: local address of the endpoint the connection is being opened from (fails only if the socket was closed)"),
     # ---- fixed-size arithmetic ------------------------------------------------------------------------------
     (r"security::random_domain_name$", r".*", r".*", "I", "u32 -> usize conversions and remainders/indices by the lengths of non-empty constant tables"),
     (r"security::(MeetingSecret::(token|derive_token)|derive_uid|new_uid)$", r"^copy_from_slice$", r".*", "I", "source and destination slices have the same constant length (prefix of a 32 byte digest / 6 byte time)"),
